@@ -386,7 +386,7 @@ class C16(Property):
         return ('cases: (template syntax tree incl. invalid argument lists, events); observed: validation verdict; for accepted '
                 'templates and each event x representation: the evaluation result or exception via Template.evaluate and via '
                 'EventType.evaluate_template (as story) and PropertyRelation.evaluate_description, repeated twice, and the event view before/after; '
-                'non-trivial = an accepted template with a scope and an event that makes some scope collapse; distinct by content')
+                'non-trivial = an accepted template with a scope and an event that lacks a property a placeholder in a scope refers to; distinct by content')
 
     def generate(self, rng, tier):
         n = 250 if tier == 'quick' else 6000
@@ -588,8 +588,28 @@ class C16(Property):
             if len(evs) > 1:
                 yield dict(case, events=evs[:i] + evs[i + 1:])
 
-    def nontrivial(self, case):
-        return json.dumps(case, sort_keys=True)
+    def nontrivial_obs(self, case, obs):
+        # an accepted template with a scope, and an event that lacks a property a placeholder inside a scope refers to
+        if not isinstance(obs, dict) or obs.get('verdict') != 'ok' or '{' not in case['template']:
+            return None
+        try:
+            nodes = ref_parse(case['template'])
+        except Invalid:
+            return None
+        inside = set()
+
+        def walk(ns, depth):
+            for n in ns:
+                if n[0] == 'scope':
+                    walk(n[1], depth + 1)
+                elif n[0] == 'ph' and depth > 0:
+                    inside.update(a for a in n[2] if a in PROPS)
+        walk(nodes, 0)
+        for ev in case['events']:
+            have = {k for k, v in ev['props'] if v}
+            if inside - have:
+                return json.dumps(case, sort_keys=True)
+        return None
 
     def sample_view(self, case):
         return {'template': case['template']}
